@@ -96,9 +96,10 @@ pub fn run(o: &Opts, _deck: &str) -> String {
             1 => 1,
             2 => 2 + rng.below(6) as usize,
             3 => 10 + rng.below(40) as usize,
-            _ => if o.thorough() && t % 50 == 4 { 3000 } else { 60 + rng.below(200) as usize },
+            // a few large tables (beyond one 8 KiB read buffer many times over; the real metrics have 8128 / 10296 rows)
+            _ => if t == 4 { 8200 } else if t == 9 || (o.thorough() && t % 50 == 4) { 3100 } else { 60 + rng.below(200) as usize },
         };
-        let every = if nrows <= 50 { 1 } else { 13 };
+        let every = if nrows <= 50 { 1 } else if nrows <= 400 { 13 } else { 4099 };
         // ---------------- blueprint profile
         {
             let rows: Vec<(u64, u64, u64, u64, f32, f32)> = (0..nrows)
